@@ -13,7 +13,7 @@ PROPERTY = 'C01'
 RULE = ('Typed random STL grammar (arithmetic incl. unary minus/ln/log, six comparisons, Boolean, rise/fall, '
         'prev/next/s_prev/s_next, bounded+unbounded past and future, unless) x random traces of length 1..12 '
         '(thorough 24) with dyadic values; lanes main/short/deep/bigbound/timecol and long (few large cases: 16-48 samples, bounds up to 20, up to five variables); one trace in five uses very few distinct values (zeros, ties, plateaus). Oracle: independent quadratic '
-        'lane giant: one bounded operator with a window of 200..1100 samples (around 256, 512 and 1024; lower bound 0..300; bounded since/until up to 300), alone, negated, next to its dual or under a narrow operator, on mostly flat traces with a few isolated extreme samples, 1 .. 2*bound+5 samples long; lane hugetrace: 700..3000 samples under windows of 30..130 samples with long runs of few distinct values; lane reevaluate: one specification object evaluated repeatedly on one data-set dictionary that the caller edits in place between the calls (a value changes, a sample is appended or dropped); '
+        'lane bigint: integer samples of the order of 1.7e18 (nanosecond time stamps) whose small differences are compared with constants, reference in exact integer arithmetic; lane giant: one bounded operator with a window of 200..1100 samples (around 256, 512 and 1024; lower bound 0..300; bounded since/until up to 300), alone, negated, next to its dual or under a narrow operator, on mostly flat traces with a few isolated extreme samples, 1 .. 2*bound+5 samples long; lane hugetrace: 700..3000 samples under windows of 30..130 samples with long runs of few distinct values; lane reevaluate: one specification object evaluated repeatedly on one data-set dictionary that the caller edits in place between the calls (a value changes, a sample is appended or dropped); '
         'reference R-dt; result must be n [time,value] pairs with the given time column. Non-trivial = formula has '
         '>=1 temporal/event operator and the reference result is not constant over the trace, or n == 1; '
         'distinct = distinct (formula text, trace, time column) digests.')
@@ -307,7 +307,41 @@ def strat_hugetrace_(draw, tier):
     return {'formula': f, 'vars': vs, 'trace': tr}
 
 
+def check_bigint(case):
+    """Integer samples beyond 2**53: the reference keeps them integers (exact), values are compared exactly."""
+    from .. import refsem
+    from ..common import bigint_cases  # noqa
+    f = from_json(case['formula'])
+    vs = list(case['vars'])
+    tr = {v: [int(x) for x in case['trace'][v]] for v in vs}
+    n = len(tr[vs[0]])
+    labels = feature_labels(f, n) + ['integer-samples>2^53']
+    refsem.KEEP_INTEGERS = True
+    try:
+        ref = dt(f, tr, n)
+    except Undefined as e:
+        return DISCARD('undefined:' + str(e)[:20], labels)
+    finally:
+        refsem.KEEP_INTEGERS = False
+    from ..monitors import build, exc_outcome
+    try:
+        spec = build('dt_off', 'out = ' + show(f), vs)
+        ds = {'time': list(range(n))}
+        for v in vs:
+            ds[v] = list(tr[v])
+        out = spec.evaluate(ds)
+    except Exception as e:  # noqa
+        o = exc_outcome(e)
+        return FAIL('exc:%s@%s' % (o[1], o[4]), 'spec: out = %s\ntrace (integers): %s\nraised %s: %s' % (show(f), tr, o[1], o[3]), labels)
+    got = [p[1] for p in out]
+    if len(got) != n or any(a != b for a, b in zip(got, ref)):
+        return FAIL('mismatch:integer-samples', 'spec: out = %s\ntrace (Python integers): %s\nrtamt:     %r\nreference (exact integer arithmetic): %r' % (
+            show(f), tr, got, ref), labels)
+    return PASS(len(set(ref)) > 1 or n == 1, labels)
+
+
 LANES = [
+    Lane('bigint', lambda tier: __import__('vlib.common', fromlist=['bigint_cases']).bigint_cases(), check_bigint, 600, 6000, None),
     # windows of 200..1100 samples (around 256, 512, 1024), lower bound 0 or not, traces shorter than the lower bound up to twice the upper bound
     Lane('giant', lambda tier: giant_cases(F.TUN_PAST + F.TUN_FUT, ('since', 'until')), check, 150, 1500, None),
     Lane('hugetrace', lambda tier: strat_hugetrace_(tier), check, 100, 1000, None),
